@@ -243,6 +243,16 @@ func runC11(w *fw.Worker) {
 		if !usePrefix {
 			prefix = ""
 		}
+		// sometimes the prefix is the very word a leaf's own name starts with (Prefix "APP", field AppName -> APP_APP_NAME)
+		wordPrefix := usePrefix && r.Chance(12)
+		if wordPrefix {
+			if pw := pathWords(fw.Pick(r, leaves)); len(pw) > 0 {
+				prefix = strings.ToUpper(pw[0])
+				w.Count("prefix_equal_to_a_leafs_first_word", 1)
+			} else {
+				wordPrefix = false
+			}
+		}
 		for _, v := range noPrefixVars {
 			os.Unsetenv(v)
 		}
@@ -300,7 +310,7 @@ func runC11(w *fw.Worker) {
 		set := func(k, v string) {
 			os.Setenv(k, v)
 			envVars++
-			if prefix == "" {
+			if prefix == "" || wordPrefix {
 				noPrefixVars = append(noPrefixVars, k)
 			}
 		}
